@@ -426,7 +426,44 @@ func craftedInputs() [][]byte {
 		}
 		out = append(out, append(b, 'Z', 'Z'))
 	}
+	// classes registered for struct types that embed themselves through a pointer, with wire fields that exist
+	// at no level of the embedding (indexes 179-181)
+	out = append(out,
+		hspecHx("C x07 SelfEmb x93 x01 n x06 nosuch x05 other x60 x91 x92 x93"),
+		hspecHx("C x04 EmbA x92 x06 nosuch x01 a x60 x91 x92"),
+		hspecHx("x57 C x04 EmbB x92 x01 b x03 zzz x60 x91 x92 C x07 SelfEmb x91 x04 self x61 N Z"))
+	// ONE class definition with 16000 pairwise distinct field names and no instance (index 182), and the same
+	// followed by one instance with null fields (index 183): the cost of a definition is its length
+	for _, withInst := range []bool{false, true} {
+		n := 16000
+		if withInst {
+			n = 10000
+		}
+		b := append(hspecHx("C x05 Inner"), wint(n)...)
+		for i := 0; i < n; i++ {
+			b = append(b, 3, 'a'+byte(i%26), 'a'+byte(i/26%26), 'a'+byte(i/676%26))
+		}
+		if withInst {
+			b = append(b, 0x60)
+			b = append(b, bytes.Repeat([]byte{'N'}, n)...)
+		}
+		out = append(out, b)
+	}
 	return out
+}
+
+// embedding cycles through pointers
+type c14SelfEmb struct {
+	*c14SelfEmb
+	N int32
+}
+type c14EmbA struct {
+	*c14EmbB
+	A int32
+}
+type c14EmbB struct {
+	*c14EmbA
+	B int32
 }
 
 type c14maps struct {
@@ -712,6 +749,8 @@ func (c14) Run(c Case, env *Env) Result {
 			res.NT = append(res.NT, Hash64(string(ins[j])))
 			r := rand.New(rand.NewSource(int64(j)))
 			tm, _ := sharedMaps()
+			// struct types whose EMBEDDING graph has a cycle through a pointer ("any type map")
+			tm["SelfEmb"], tm["EmbA"], tm["EmbB"] = reflect.TypeOf(c14SelfEmb{}), reflect.TypeOf(c14EmbA{}), reflect.TypeOf(c14EmbB{})
 			for _, m := range c14typeMaps(tm, r)[:2] {
 				c14run(env, &res, c, j, ins[j], m.name, m.tm, []string{"crafted"})
 			}
